@@ -135,6 +135,24 @@ func (H) Generate(prop, tier string, seed uint64) *simkit.Plan {
 		}
 		p.AddStep(st)
 	}
+	if prop != "C18" && r.Chance(0.15) {
+		// directed tail, a second failure of the same peer: its metric expires, is
+		// alerted for and forgotten (two check rounds); it comes back with a metric so
+		// short-lived that no round need see it alive, and fails again - that is a
+		// new failure and has its own alert
+		mon, name, peer := r.Intn(nmon), r.Intn(nnames), r.Intn(npeers)
+		short := ci / 5
+		if short < 40 {
+			short = 40
+		}
+		p.AddStep(Step{Op: "heal"})
+		p.AddStep(Step{Op: "peerset", Set: 1<<uint(npeers+1) - 1})
+		for k := 0; k < 2; k++ {
+			p.AddStep(Step{Op: "log", Mon: mon, Name: name, Peer: peer, Valid: true, TTLMs: short, DelayMs: r.Range(0, ci)})
+			p.AddStep(Step{Op: "read", Mon: mon, Name: name, DelayMs: short + 2*ci + r.Range(50, 300)})
+		}
+		p.SetKnob("second_episode", 1)
+	}
 	return p
 }
 
@@ -619,8 +637,11 @@ func (w *world) judgeAlerts(n *node) {
 			e := cands[len(cands)-1]
 			w.violate("C09/alert_while_fresh", "", "mon%d: peer%d/%s alerted at %s while its latest metric (v=%s) only expires at %s", n.idx, w.peerIdx(p), name, w.ts(al.at), h[e.idx].value, w.ts(e.exp))
 		}
+		var prev *episode
 		for _, e := range eps {
 			a := h[e.idx]
+			ePrev := prev
+			prev = e
 			w.run.Probe("expiry_episodes_seen")
 			if len(e.stale) > 1 {
 				var ts []string
@@ -647,6 +668,15 @@ func (w *world) judgeAlerts(n *node) {
 			// (or is the first ever received for this name and peer).
 			freshFor := e.exp.Sub(e.from)
 			seenHealthy := e.idx == 0 || freshFor >= w.checkInt+slack
+			// ... or comes after the checker has forgotten the peer: the round after the
+			// one that alerted removes the stale metric and with it every memory of
+			// that failure, so what arrives later is, to the checker, a first metric
+			if ePrev != nil && len(ePrev.stale) > 0 && !ePrev.closedByRemoval && ePrev.idx+1 == e.idx && ePrev.samples < 6 &&
+				e.from.After(ePrev.stale[len(ePrev.stale)-1].Add(w.checkInt+slack)) &&
+				(!w.peersOn || w.memberThroughout(p, ePrev.stale[0], e.from)) {
+				seenHealthy = true
+				w.run.Probe("arrival_after_checker_forgot")
+			}
 			if len(e.stale) == 0 && !e.closedByRemoval && a.valid && e.samples < 6 && window > need && seenHealthy && (!w.peersOn || w.memberThroughout(p, e.from, e.to)) {
 				w.violate("C09/alert_missing", fmt.Sprintf("peersmode=%v", w.peersOn),
 					"mon%d: peer%d/%s: metric v=%s expired at %s, was not renewed for %s (check interval %s, %d samples) and no alert was raised", n.idx, w.peerIdx(p), name, a.value, w.ts(e.exp), window, w.checkInt, e.samples)
